@@ -141,17 +141,23 @@ def misc(bits_max, kv_bits):
                 if enc != bt.enc_kv(bs, c) or got[0] != KV_TYPE or tuple(got[1]) != bs or got[2] != c:
                     a.bad("bin_node_roundtrip", "a kv node does not parse back to its parts", bits=bs)
     for l in children:
-        for r in children:
+        for r in children:  # includes l == r: two identical sub-tries are legal
             a.evals += 1
-            enc = encode_branch_node(l, r)
-            if enc != bt.enc_branch(l, r) or parse_node(enc) != (BRANCH_TYPE, l, r):
-                a.bad("bin_node_roundtrip", "a branch node does not parse back to its parts", left=l, right=r)
-    for v in (b"a", b"\x00", b"\x01", b"\x02", b"v" * 33, b"x" * 64, b"y" * 100):
+            try:
+                enc = encode_branch_node(l, r)
+                if enc != bt.enc_branch(l, r) or parse_node(enc) != (BRANCH_TYPE, l, r):
+                    a.bad("bin_node_roundtrip", "a branch node does not parse back to its parts", left=l, right=r)
+            except Exception as e:  # noqa
+                a.bad("bin_node_raised", f"encoding / parsing a well-formed branch node raised {type(e).__name__}", left=l, right=r)
+    for v in (b"a", b"\x00", b"\x01", b"\x02", b"\x02\x02zz", b"v" * 33, b"x" * 64, b"y" * 100):
         a.evals += 1
-        enc = encode_leaf_node(v)
-        got = parse_node(enc)
-        if enc != bt.enc_leaf(v) or got[0] != LEAF_TYPE or got[2] != v:
-            a.bad("bin_node_roundtrip", "a leaf node does not parse back to its value", value=v)
+        try:
+            enc = encode_leaf_node(v)
+            got = parse_node(enc)
+            if enc != bt.enc_leaf(v) or got[0] != LEAF_TYPE or got[2] != v:
+                a.bad("bin_node_roundtrip", "a leaf node does not parse back to its value", value=v)
+        except Exception as e:  # noqa
+            a.bad("bin_node_raised", f"encoding / parsing a well-formed leaf node raised {type(e).__name__}", value=v)
     # binary nodes: malformed => InvalidNode
     malformed = [None, b""]
     malformed += [bytes([t]) + b"\x00" * n for t in range(3, 256) for n in (0, 1, 32, 64)]
